@@ -143,8 +143,9 @@ static const uint32_t tp_event_to_ep_map[] = {
     (__u64) = (((__u64) & ~(U64_BITS_MASK(__len) << (__off))) |		\
 	(((__data) & U64_BITS_MASK(__len)) << (__off)))
 
-#define TPDATA_TFD_GET(__u64)		(int)U64_BITS_GET(__u64, 0, 32)
-#define TPDATA_TFD_SET(__u64, __tfd)	U64_BITS_SET(__u64, 0, 32, ((uint32_t)(__tfd)))
+/* Kept as (fd + 1): 0 is "no descriptor" (-1), descriptor 0 is a valid one. */
+#define TPDATA_TFD_GET(__u64)		(((int)U64_BITS_GET(__u64, 0, 32)) - 1)
+#define TPDATA_TFD_SET(__u64, __tfd)	U64_BITS_SET(__u64, 0, 32, ((uint32_t)((__tfd) + 1)))
 #define TPDATA_EVENT_GET(__u64)		U64_BITS_GET(__u64, 32, 3)
 #define TPDATA_EVENT_SET(__u64, __ev)	U64_BITS_SET(__u64, 32, 3, __ev)
 #define TPDATA_FLAGS_GET(__u64, __ev)	U64_BITS_GET(__u64, (35 + (3 * (__ev))), 3)
@@ -170,6 +171,7 @@ typedef struct thread_pool_thread_s { /* thread pool thread info */
 	struct kevent	ev_changelist[TPT_ITEM_EV_COUNT]; /* Passed to kevent. */
 #endif /* BSD specific code. */
 	pthread_t	pt_id;		/* Thread id. */
+	volatile int	created;	/* pt_id was created by tp_threads_create() and is not joined yet. */
 	int		cpu_id;		/* CPU num or -1 if no bindings. */
 	size_t		thread_num;	/* num in array, short internal thread id. */
 	void		*msg_queue;	/* Queue specific. */
@@ -656,7 +658,7 @@ tpt_ev_post(int op, tp_event_p ev, tp_udata_p tp_udata) {
 		tfd = TPDATA_TFD_GET(tp_udata->tpdata);
 		switch (op) {
 		case TP_CTL_DEL: /* Delete timer. */
-			if (0 == tfd)
+			if (-1 == tfd)
 				return (ENOENT);
 			error = 0;
 err_out_timer:
@@ -664,7 +666,7 @@ err_out_timer:
 			tp_udata->tpdata = 0;
 			return (error);
 		case TP_CTL_DISABLE:
-			if (0 == tfd)
+			if (-1 == tfd)
 				return (ENOENT);
 			tp_udata->tpdata |= TPDATA_F_DISABLED;
 			memset(&new_tmr, 0x00, sizeof(new_tmr));
@@ -676,7 +678,7 @@ err_out_timer:
 		}
 
 		/* TP_CTL_ADD, TP_CTL_ENABLE */
-		if (0 == tfd) { /* Create timer, if needed. */
+		if (-1 == tfd) { /* Create timer, if needed. */
 			tfd = timerfd_create(
 			    ((0 != (TP_FF_T_ABSTIME & ev->fflags)) ? CLOCK_REALTIME : CLOCK_MONOTONIC),
 			    (TFD_NONBLOCK |
@@ -732,7 +734,7 @@ err_out_timer:
 		switch (op) {
 		case TP_CTL_DEL: /* Delete proc. */
 		case TP_CTL_DISABLE:
-			if (0 == tfd)
+			if (-1 == tfd)
 				return (ENOENT);
 			error = 0;
 err_out_proc:
@@ -741,7 +743,7 @@ err_out_proc:
 			return (error);
 		case TP_CTL_ADD: /* Add proc. */
 		case TP_CTL_ENABLE:
-			if (0 != tfd)
+			if (-1 != tfd)
 				return (EEXIST);
 			/* Create pidfd. */
 			tfd = pidfd_open(tp_udata->ident, PIDFD_NONBLOCK);
@@ -779,7 +781,7 @@ err_out_proc:
 	}
 
 	op_guess = ((0 == tp_udata->tpdata) ? EPOLL_CTL_ADD : EPOLL_CTL_MOD);
-	TPDATA_TFD_SET(tp_udata->tpdata, 0);
+	TPDATA_TFD_SET(tp_udata->tpdata, -1);
 	TPDATA_EV_FL_SET(tp_udata->tpdata, ev->event, ev->flags); /* Remember original event and flags. */
 	if (TP_CTL_DISABLE == op) { /* Disable event. */
 		tp_udata->tpdata |= TPDATA_F_DISABLED;
@@ -1067,6 +1069,8 @@ tp_create(tp_settings_p s, tp_p *ptp) {
 	if (0 == s->threads_max) {
 		s->threads_max = cpu_count;
 	}
+	if (((SIZE_MAX - sizeof(tp_t)) / sizeof(tp_thread_t)) <= s->threads_max)
+		return (ENOMEM);
 	tp = (tp_p)calloc(1, (sizeof(tp_t) + ((s->threads_max + 1) * sizeof(tp_thread_t))));
 	if (NULL == tp)
 		return (ENOMEM);
@@ -1132,7 +1136,7 @@ tp_shutdown(tp_p tp) {
 	for (size_t i = 0; i < tp->s.threads_max; i ++) {
 		if (0 == tpt_is_running(&tp->threads[i]))
 			continue;
-		tpt_msg_send(&tp->threads[i], NULL, 0,
+		tpt_msg_send(&tp->threads[i], NULL, TP_MSG_F_FAIL_DIRECT,
 		    tpt_msg_shutdown_cb, NULL);
 	}
 }
@@ -1152,25 +1156,17 @@ tp_shutdown_wait(tp_p tp) {
 		return (EDEADLK);
 
 	for (size_t i = 0; i < tp->s.threads_max; i ++) {
-		if (TP_THREAD_STATE_STOP == tp->threads[i].state)
-			continue;
-		error = pthread_join(tp->threads[i].pt_id, NULL);
-		switch (error) {
-		case 0: /* No error. */
-			break;
-		case EDEADLK: /* Should not happen, checked by tp_thread_is_tp_thr(). */
-			return (error);
-		case EOPNOTSUPP: /* Probably other thread also call this right now. */
-			/* FreeBSD specific. */
-		default:
-			tp->threads[i].state = TP_THREAD_STATE_STOP;
+		if (0 != __sync_lock_test_and_set(&tp->threads[i].created, 0)) {
+			/* Only one waiter joins a created thread. */
+			error = pthread_join(tp->threads[i].pt_id, NULL);
+			if (0 == error)
+				continue;
 			err_cnt ++;
-			break;
 		}
-	}
-	/* Fallback code, normally not used. */
-	while (0 != err_cnt && 0 != tp_thread_count_get(tp)) {
-		nanosleep(&rqts, NULL); /* Ignore early wakeup and errors. */
+		/* Attached thread / other waiter joins / join failed. */
+		while (TP_THREAD_STATE_STOP != tp->threads[i].state) {
+			nanosleep(&rqts, NULL); /* Ignore early wakeup and errors. */
+		}
 	}
 
 	return (0);
@@ -1190,6 +1186,9 @@ tp_destroy(tp_p tp) {
 	error = tp_shutdown_wait(tp);
 	if (0 != error)
 		return (error);
+	if (g_tp == tp) {
+		g_tp = NULL;
+	}
 	/* Free resources. */
 	tpt_data_uninit(tp->pvt);
 	for (size_t i = 0; i < tp->s.threads_max; i ++) {
@@ -1224,6 +1223,7 @@ tp_udata_get(tp_p tp) {
 int
 tp_threads_create(tp_p tp, const int skip_first) {
 	tpt_p tpt;
+	int error;
 
 	if (NULL == tp)
 		return (EINVAL);
@@ -1232,13 +1232,18 @@ tp_threads_create(tp_p tp, const int skip_first) {
 
 	for (size_t i = ((0 != skip_first) ? 1 : 0); i < tp->s.threads_max; i ++) {
 		tpt = &tp->threads[i];
-		if (NULL == tpt->tp)
+		if (NULL == tpt->tp ||
+		    TP_THREAD_STATE_STOP != tpt->state ||
+		    0 != tpt->created)
 			continue;
 		tpt->state = TP_THREAD_STATE_STARTING;
-		if (0 == pthread_create_eagain(&tpt->pt_id, NULL,
-		    tp_thread_proc, tpt)) {
-		} else {
+		tpt->created = 1;
+		error = pthread_create_eagain(&tpt->pt_id, NULL,
+		    tp_thread_proc, tpt);
+		if (0 != error) {
+			tpt->created = 0;
 			tpt->state = TP_THREAD_STATE_STOP;
+			return (error);
 		}
 	}
 	return (0);
@@ -1285,8 +1290,12 @@ tp_thread_proc(void *data) {
 		return (NULL);
 	}
 
-	tpt->tp->threads_cnt ++;
+	__sync_fetch_and_add(&tpt->tp->threads_cnt, 1);
 	tpt->state = TP_THREAD_STATE_RUNNING;
+	__sync_synchronize();
+	if (0 != tpt->tp->shutdown) { /* tp_shutdown() did not see this thread. */
+		tpt->state = TP_THREAD_STATE_STOPING;
+	}
 
 	snprintf(thr_name, sizeof(thr_name), "%s: %zu",
 	    tpt->tp->s.name, tpt->thread_num);
@@ -1333,9 +1342,8 @@ tp_thread_proc(void *data) {
 	syslog(LOG_INFO, "%s thread exited...", thr_name);
 	pthread_setspecific(tp_tls_key_tpt, NULL);
 	pthread_self_name_set(NULL);
-	memset(&tpt->pt_id, 0x00, sizeof(pthread_t));
-	tpt->state = TP_THREAD_STATE_STOP; /* Reset state on exit. */
-	tpt->tp->threads_cnt --;
+	__sync_fetch_and_sub(&tpt->tp->threads_cnt, 1);
+	tpt->state = TP_THREAD_STATE_STOP; /* Reset state on exit: last access to tpt. */
 
 	return (NULL);
 }
